@@ -7,6 +7,7 @@ import (
 	"fmt"
 	"reflect"
 	"strconv"
+	"strings"
 	"sync"
 
 	"github.com/hashicorp/go-argmapper/internal/graph"
@@ -77,7 +78,7 @@ func (f *Func) Redefine(opts ...Arg) (*Func, error) {
 
 		// Setup our values
 		for name, f := range set.namedValues {
-			callArgs = append(callArgs, Named(name, v.Field(f.index).Interface()))
+			callArgs = append(callArgs, namedValue(name, v.Field(f.index)))
 		}
 		for _, f := range set.typedValues {
 			callArgs = append(callArgs, Typed(v.Field(f.index).Interface()))
@@ -115,6 +116,22 @@ func (f *Func) Redefine(opts ...Arg) (*Func, error) {
 	return NewFunc(fn.Interface(),
 		FuncName(f.Name()), // Preserve the name from the original func
 	)
+}
+
+// namedValue is Named for a value we hold as a reflect.Value: it keeps the
+// static type of the value. An input declared with an interface type must be
+// handed on under that type, since a named value only satisfies a named
+// requirement of exactly its type; going through interface{} would turn it
+// into a value of its dynamic type.
+func namedValue(n string, rv reflect.Value) Arg {
+	return func(a *argBuilder) error {
+		if !rv.IsValid() || (rv.Kind() == reflect.Interface && rv.IsNil()) {
+			return nil
+		}
+
+		a.named[strings.ToLower(n)] = rv
+		return nil
+	}
 }
 
 // redefineInputs is called by Redefine to determine the input struct type
